@@ -315,6 +315,62 @@ def directed(tmp, state, direction, cfg, calls, prefix, mon: Monitor, run: Run, 
     return (conc_case_text(state, direction, cfg, calls, ev, res), c2)
 
 
+def helper_scenarios(tmp, state, direction, mon: Monitor, run: Run):
+    """listeners as the application may write them (monitors only): (1) the second of three listeners raises: what the
+    listeners were told must be documented edges, the lock must be free afterwards and the next operation must run;
+    (2) a listener registered after the first operation is told exactly the later changes"""
+    doc = mon.doc
+    for op in L.OPS:
+        ctx = {'state': state, 'direction': direction, 'cfg': RICH, 'level': 'state', 'raising_listener': True}
+        calls = [one_call(op), one_call('queue'), one_call('abort')]
+        h = L.Harness(tmp, state, direction, RICH, gate=True, raising_listener=True)
+        try:
+            steps = seq_events(h, calls)
+            res = {'per_event': [s['obs'] for s in steps], 'cap': dict(h.cap), 'violations': list(h.violations), 'refusals': [],
+                   'results': {j: r for j, r in h.results.items() if r != ('exc', 'ListenerError')}}
+            mon.edges(ctx, res, calls, concurrent=False)
+            mon.lock(ctx, res, calls)
+            mon.exceptions(ctx, res, calls)
+            wit = dict(ctx, calls=[list(c) for c in calls])
+            if h.lock.locked() or any(j not in h.results for j in range(len(calls))):
+                run.add_finding(Finding('lock-stuck-after-listener-error', 'a raising listener left the state lock taken / an operation pending', wit))
+            for st in steps:
+                told = {}
+                for o in st['obs']:
+                    if o[0] == 'E':
+                        told.setdefault(o[5], []).append((o[1], o[2]))
+                if told and (told.get(0) != told.get(1)):
+                    run.add_finding(Finding('listeners-told-different-changes', f'listeners before the failing one were told {told}', wit))
+        finally:
+            h.close()
+        run.case({'s': state, 'd': direction, 'op': op, 'raising': True}, kind='raising-listener')
+        # (2) late listener
+        ctx = {'state': state, 'direction': direction, 'cfg': CFGS[0], 'level': 'state', 'late_listener': True}
+        calls = [one_call(op), one_call('queue'), one_call('pause')]
+        h = L.Harness(tmp, state, direction, CFGS[0], gate=True)
+        try:
+            first = seq_events(h, calls[:1])
+            h.t.state_listeners.append(L.Recorder(h, 1))
+            rest = []
+            for j in (1, 2):
+                h.capture(j, calls[j])
+                h.start(j)
+                while j not in h.results and h.enabled_step():
+                    h.do_step()
+                rest.append(h.take())
+            a = [(o[1], o[2]) for obs in rest for o in obs if o[0] == 'E' and o[5] == 0]
+            b = [(o[1], o[2]) for obs in rest for o in obs if o[0] == 'E' and o[5] == 1]
+            res = {'per_event': [first[0]['obs']] + rest, 'cap': dict(h.cap), 'violations': list(h.violations), 'refusals': [],
+                   'results': dict(h.results)}
+            mon.edges(ctx, res, calls, concurrent=False)
+            if a != b:
+                run.add_finding(Finding('late-listener-told-different-changes', f'first listener {a}, listener registered later {b}',
+                                        dict(ctx, calls=[list(c) for c in calls])))
+        finally:
+            h.close()
+        run.case({'s': state, 'd': direction, 'op': op, 'late': True}, kind='late-listener')
+
+
 def natural(tmp, state, direction, cfg, calls, mon: Monitor, manager=False):
     """gather()-like run on a plain asyncio.Lock: all coroutines created, then all started, slow operations
     completed in order; the lock hands over by itself."""
@@ -432,6 +488,8 @@ def run(run: Run):
     run.prove(['tr_state', 'tr_transfer'], extra_targets=['theories/C03/Eval.vo'])
     check_pins(run)
     run.cov['redispatch_after_lock'] = L.gen_constant('redispatch_after_lock')
+    if L.gen_reasons() != L.REASONS[1:4]:
+        run.add_broken('constants: AbortReason values vs harness numbering', str(L.gen_reasons()))
     mon = Monitor(run)
     tmp = tempfile.mkdtemp(prefix='verif_c03_')
     cases = []          # (coq text, ctx)
@@ -464,6 +522,9 @@ def run(run: Run):
                         run_sequential(tmp, state, direction, dict(RICH, remove_fails=True), [call], mon)
                         run_sequential(tmp, state, direction, dict(RICH, remove_fails=True), [(op, 1, False)], mon, manager=True)
                         run.case({'s': state, 'd': direction, 'call': call, 'remove_fails': True}, kind='single-call-remove-fails')
+        for state in L.STATES:
+            for direction in L.DIRS:
+                helper_scenarios(tmp, state, direction, mon, run)
         run.cov['exhaustive_part'] = 'state x direction x operation x argument x %d configurations' % len(CFGS)
         _t = _mark(run, 'single', _t)
         # manager level: abort/queue/pause raise InvalidStateTransition iff the state method returns False
